@@ -6,6 +6,8 @@ import (
 	"errors"
 	"fmt"
 	"math"
+	"runtime"
+	"runtime/debug"
 	"strconv"
 	"strings"
 
@@ -33,23 +35,27 @@ func init() {
 // probeOversizeMetadata runs the one region that is cheap to reach but too large for the line protocol: a metadata
 // blob at and one byte above the 100 MB cap of the readers.  Since b6500d8 `validate` must refuse the larger one with a
 // validation error before anything is written (AddChunk already did; SetICCProfile stores it).  Go only — the model's
-// answer is `validateWith`'s `limits` check plus the theorem that every accepted state reads back.
+// answer is `validateWith`'s `limits` check plus the theorem that every accepted state reads back.  Both tiers: the
+// blob is a slice of the shared read-only CapBuffer, the file goes into one pre-sized buffer; an accepted file that a
+// reader of the package refuses is filed under C14 (the muxer wrote a file nobody can read) and under C15 (a blob
+// within the cap is not read back).
 func probeOversizeMetadata(rep *Report) {
-	const cap = 100 * 1024 * 1024
+	const cap = MetadataCap
+	defer debug.SetGCPercent(debug.SetGCPercent(25))
+	sink := &metaCapSink{b: make([]byte, 0, cap+(1<<16))}
 	for _, n := range []int{cap, cap + 1} {
 		m := mux.NewMuxer()
 		_ = m.AddFrame([]byte{0x2f, 0, 0, 0, 0}, nil)
-		blob := make([]byte, n)
-		m.SetICCProfile(blob)
-		var buf bytes.Buffer
-		err := m.Assemble(&buf)
-		in := map[string]any{"op": "mux-probe", "ops": fmt.Sprintf("AF0:2f00000000;IC:<%d zero bytes>", n)}
+		m.SetICCProfile(CapBuffer()[:n:n])
+		sink.b = sink.b[:0]
+		err := m.Assemble(sink)
+		in := map[string]any{"op": "mux-probe", "ops": fmt.Sprintf("AF0:2f00000000;IC:<%d bytes of CapBuffer>", n)}
 		rep.Count(fmt.Sprintf("probe:icc:%d:assemble-ok=%v", n, err == nil))
 		rep.Eval(true, []byte(fmt.Sprintf("probe-icc-%d", n)))
 		if err != nil {
-			if buf.Len() != 0 {
+			if len(sink.b) != 0 {
 				rep.Add(Finding{Kind: "property", Property: "C14", Signature: "mux.Assemble:error-after-write",
-					Detail: fmt.Sprintf("Assemble returned %v after writing %d bytes", err, buf.Len()), Input: in})
+					Detail: fmt.Sprintf("Assemble returned %v after writing %d bytes", err, len(sink.b)), Input: in})
 			}
 			if n <= cap || !errors.Is(err, mux.ErrMuxValidation) {
 				rep.Add(Finding{Kind: "correspondence", Signature: "mux-model:metadata-limit",
@@ -62,14 +68,33 @@ func probeOversizeMetadata(rep *Report) {
 			rep.Add(Finding{Kind: "correspondence", Signature: "mux-model:metadata-limit",
 				Detail: fmt.Sprintf("SetICCProfile(%d bytes): Assemble succeeded; the model expects a validation error", n), Input: in})
 		}
-		_, derr := mux.NewDemuxer(buf.Bytes())
-		_, perr := verifapi.NewContainerParser(buf.Bytes())
+		d, derr := mux.NewDemuxer(sink.b)
+		back := -1
+		if derr == nil {
+			if got, gerr := d.GetChunk(mux.FourCCICCP); gerr == nil && bytes.Equal(got, CapBuffer()[:n:n]) {
+				back = n
+			} else {
+				back = len(got)
+			}
+		}
+		d = nil
+		runtime.GC()
+		_, perr := verifapi.NewContainerParser(sink.b)
+		runtime.GC()
 		if derr != nil || perr != nil {
 			rep.Add(Finding{Kind: "property", Property: "C14", Signature: "mux-roundtrip:oversize-metadata-accepted",
-				Detail: fmt.Sprintf("SetICCProfile(%d bytes) + Assemble succeed (%d bytes), NewDemuxer: %v, container.NewParser: %v", n, buf.Len(), derr, perr),
+				Detail: fmt.Sprintf("SetICCProfile(%d bytes) + Assemble succeed (%d bytes), NewDemuxer: %v, container.NewParser: %v", n, len(sink.b), derr, perr),
+				Input:  in})
+		}
+		if n <= cap && (derr != nil || perr != nil || back != n) {
+			rep.Add(Finding{Kind: "property", Property: "C15", Signature: "meta:cap:ICC:mux-readers",
+				Detail: fmt.Sprintf("ICC blob of %d bytes (cap%+d) through Muxer.SetICCProfile: Assemble succeeds (%d bytes), NewDemuxer: %v, GetChunk gives %d bytes back, container.NewParser: %v", n, n-cap, len(sink.b), derr, back, perr),
 				Input:  in})
 		}
 	}
+	sink.b = nil
+	runtime.GC()
+	debug.FreeOSMemory()
 }
 
 // ---------------------------------------------------------------------------------------------
@@ -1000,7 +1025,7 @@ func suiteMux(rep *Report) error {
 		"setters and retroactive edits in random order with in/out-of-range indices; canvas explicit/implicit/too small/huge; " +
 		"every metadata subset incl. empty non-nil and chunk-like blobs, via Set* and AddChunk) and an exhaustive small product; " +
 		"each sequence runs on mux.Muxer and on the Lean model (bytes compared), accepted files go through mux.NewDemuxer, " +
-		"container.NewParser, webp.GetFeatures and the Lean RIFF walker; non-trivial = at least one frame was added; distinct = FNV of the op string"
+		"container.NewParser, webp.GetFeatures and the Lean RIFF walker; plus a probe of the metadata cap (SetICCProfile with exactly 100 MiB: Assemble must succeed and NewDemuxer / GetChunk / container.NewParser must read the blob back; 100 MiB + 1: a validation error before anything is written); non-trivial = at least one frame was added; distinct = FNV of the op string"
 	n := 4000
 	if rich {
 		n = 150000
@@ -1028,9 +1053,7 @@ func suiteMux(rep *Report) error {
 			cases[k] = nil
 		}
 	}
-	if rich {
-		probeOversizeMetadata(rep)
-	}
+	probeOversizeMetadata(rep)
 	// shortest inputs first per signature
 	sortFindingsBy(rep, "ops")
 	return nil
